@@ -238,6 +238,16 @@ func routeEntry(g *sip.Gen, host string, port int, transport string, decorate bo
 	return wire.RouteEntry{Text: na.String(), Host: host, Port: port, Transport: transport}
 }
 
+// route sets seen earlier, per (service, ingress transport): a dialog sends the same lines again
+type routeMemoT struct {
+	entries []wire.RouteEntry
+	values  []string
+	name    string
+	cell    string
+}
+
+var routeMemo = map[string][]routeMemoT{}
+
 func genRouteCase(w *wire.World, g *sip.Gen, i int) *routeCase {
 	c := &routeCase{id: fmt.Sprintf("r%d", i)}
 	sidx := g.R.Intn(len(w.Svcs))
@@ -251,6 +261,10 @@ func genRouteCase(w *wire.World, g *sip.Gen, i int) *routeCase {
 	var cell []string
 	// --- Route shape
 	ownEntry := func() (wire.RouteEntry, string) {
+		if g.R.Intn(6) == 0 {
+			// the name every service has in its own host table for its own listener
+			return routeEntry(g, wire.SelfName, myPort, "", true), "own:self-name"
+		}
 		switch g.R.Intn(4) {
 		case 0:
 			return routeEntry(g, sv.IP, myPort, "", true), "own:addr"
@@ -274,6 +288,10 @@ func genRouteCase(w *wire.World, g *sip.Gen, i int) *routeCase {
 		hs := "ip"
 		if g.R.Intn(2) == 0 {
 			host, hs = h.Name, "name"
+		}
+		if g.R.Intn(6) == 0 {
+			// the name that means another next hop in every service's own host table
+			host, hs = wire.PeerName, "service-name"
 		}
 		port := []int{0, wire.NextHopPortA, wire.NextHopPortB}[g.R.Intn(3)]
 		tr := []string{"", "udp", "tcp", "TCP", "UDP", "tls", "sctp"}[g.R.Intn(7)]
@@ -312,23 +330,33 @@ func genRouteCase(w *wire.World, g *sip.Gen, i int) *routeCase {
 		return routeEntry(g, g.Hostname()+".invalid", []int{0, 5060, 5090}[g.R.Intn(3)], []string{"", "tcp", "tls"}[g.R.Intn(3)], true)
 	}
 	var entries []wire.RouteEntry
-	switch g.R.Intn(7) {
-	case 0:
+	memoKey := fmt.Sprintf("%d/%s", sidx, c.path.Proto)
+	var reuse *routeMemoT
+	if ms := routeMemo[memoKey]; len(ms) > 0 && g.R.Intn(4) == 0 {
+		// the route set of a dialog: the very same header lines, byte for byte, as an earlier request
+		// through this listener carried
+		reuse = &ms[g.R.Intn(len(ms))]
+		entries = reuse.entries
+		cell = append(cell, reuse.cell+"(same-lines-again)")
+	}
+	switch pickShape := g.R.Intn(7); {
+	case reuse != nil:
+	case pickShape == 0:
 		cell = append(cell, "route:none")
-	case 1:
+	case pickShape == 1:
 		e, s := ownEntry()
 		entries = append(entries, e)
 		cell = append(cell, "route:"+s+"-only")
-	case 2, 3:
+	case pickShape == 2 || pickShape == 3:
 		e, s := ownEntry()
 		e2, s2 := nextEntry()
 		entries = append(entries, e, e2)
 		cell = append(cell, "route:"+s+"+"+s2)
-	case 4:
+	case pickShape == 4:
 		e, s := nextEntry()
 		entries = append(entries, e)
 		cell = append(cell, "route:"+s)
-	case 5:
+	case pickShape == 5:
 		e, s := nearMiss()
 		e2, _ := nextEntry()
 		entries = append(entries, e, e2)
@@ -340,7 +368,7 @@ func genRouteCase(w *wire.World, g *sip.Gen, i int) *routeCase {
 		entries = append(entries, e, e1, e2)
 		cell = append(cell, "route:"+s+"+"+s1+"+next")
 	}
-	if len(entries) > 0 {
+	if len(entries) > 0 && reuse == nil {
 		for k := g.R.Intn(4); k > 0 && len(entries) < 6; k-- {
 			entries = append(entries, foreign())
 		}
@@ -472,6 +500,21 @@ func genRouteCase(w *wire.World, g *sip.Gen, i int) *routeCase {
 		}
 		values, _ := g.JoinList(texts)
 		name := []string{"Route", "route", "ROUTE", "RoUtE"}[g.R.Intn(4)]
+		if reuse != nil {
+			values, name = reuse.values, reuse.name
+		} else {
+			routeCell := ""
+			for _, x := range cell {
+				if strings.HasPrefix(x, "route:") {
+					routeCell = x
+				}
+			}
+			ms := append(routeMemo[memoKey], routeMemoT{entries: entries, values: values, name: name, cell: routeCell})
+			if len(ms) > 8 {
+				ms = ms[1:]
+			}
+			routeMemo[memoKey] = ms
+		}
 		var hs []sip.Header
 		for _, v := range values {
 			hs = append(hs, sip.Header{Name: name, Value: v})
